@@ -79,6 +79,9 @@ func TestZZReplay(t *testing.T) {
 		if r := recover(); r != nil && !zzreplay.IsAssumeFalse(r) {
 			fmt.Printf("ZZ-PANIC %%v\n", r)
 		}
+		for _, e := range zzreplay.Trace() {
+			fmt.Printf("ZZ-TRACE %%s %%s\n", e.Kind, e.ID)
+		}
 		fmt.Println("ZZ-END")
 	}()
 	%s()
@@ -212,4 +215,72 @@ func cmdReplay(path string) int {
 	}
 	fmt.Println("not reproduced")
 	return 0
+}
+
+// validateSample re-runs one explored, non-violating path natively with its model
+// (translator validation): the real build must also end without a violated
+// assertion or panic, and for traced harnesses start and finish the same probes.
+func validateSample(spec HarnessSpec, smp PathSample, n int) (bool, string) {
+	tag := fmt.Sprintf("%s_%s_sample%d", spec.Prop, strings.NewReplacer("[", "_", "]", "", "=", "", ",", "_").Replace(spec.name()), n)
+	params := map[string]int{}
+	for k, val := range spec.Params {
+		params[k] = val
+	}
+	mb, _ := json.Marshal(map[string]any{"Model": smp.Model, "Params": params, "Trace": smp.Trace})
+	dir := filepath.Join(verifDir, "replays")
+	os.MkdirAll(dir, 0o755)
+	modelFile := filepath.Join(dir, tag+"_model.json")
+	os.WriteFile(modelFile, mb, 0o644)
+	out, _ := runNative(replaySpec(spec), tag, modelFile, 120*time.Second)
+	os.Remove(modelFile)
+	if strings.Contains(out, "ZZ-ASSUME-FALSE") {
+		return false, "assumption not satisfiable natively"
+	}
+	if !strings.Contains(out, "ZZ-END") {
+		return false, "native run did not finish"
+	}
+	for _, line := range strings.Split(out, "\n") {
+		if strings.HasPrefix(line, "ZZ-VIOLATED ") || strings.HasPrefix(line, "ZZ-PANIC") {
+			if strings.HasPrefix(line, "ZZ-VIOLATED ") && knownLabel(spec, strings.TrimPrefix(line, "ZZ-VIOLATED ")) {
+				continue
+			}
+			return false, "native run disagrees: " + line
+		}
+	}
+	// compare the multiset of started/finished probes
+	want := map[string]int{}
+	traced := false
+	for _, l := range smp.Trace {
+		f := strings.Fields(l)
+		if len(f) >= 3 && (f[1] == "S" || f[1] == "F") && f[2] != "" {
+			want[f[1]+" "+f[2]]++
+			traced = true
+		}
+	}
+	if traced && spec.ReplayFunc == "" {
+		got := map[string]int{}
+		for _, line := range strings.Split(out, "\n") {
+			if strings.HasPrefix(line, "ZZ-TRACE ") {
+				got[strings.TrimPrefix(line, "ZZ-TRACE ")]++
+			}
+		}
+		if len(got) > 0 {
+			for k, n := range want {
+				if got[k] != n {
+					return false, fmt.Sprintf("native trace differs: %s ×%d natively, ×%d symbolically", k, got[k], n)
+				}
+			}
+		}
+	}
+	return true, ""
+}
+
+// knownLabel: the native run of a sample may legitimately show a listed known finding.
+func knownLabel(spec HarnessSpec, label string) bool {
+	for _, kf := range loadKnown() {
+		if kf.Status == "known" && kf.Property == spec.Prop && strings.Contains(kf.Signature, label) {
+			return true
+		}
+	}
+	return false
 }
